@@ -27,7 +27,8 @@ LEVEL = "exploration"
 LEVEL_TEXT = ("Reference recogniser (MUST-ACCEPT / MUST-REJECT / EITHER for lexically unusual integers) compared with "
               "MessageSchema.load under all five protocols and with Gateway.listen, over: all 20 cross-field classes x "
               "boundary values, every prefix of sampled valid lines, 0-8 fields, each numeric field drawn from "
-              "valid/boundary/negative/huge/non-numeric/empty/padded/signed/underscore/Unicode-digit classes. "
+              "valid/boundary/negative/huge/non-numeric/empty/padded/signed/underscore/Unicode-digit classes; internal and "
+              "stream commands on non-system children over all type numbers 0-40. "
               "Seeded sampling of an infinite language; the class grid itself is swept completely in the thorough tier. "
               "A fifth of the scenarios are mixed 'universe' histories of a living gateway (sends incl. refused ones, "
               "replies, version switches, re-entry between the lines): what is accepted may not depend on history.")
